@@ -62,6 +62,7 @@ func NewGen(r *rand.Rand) *Gen {
 	if g.state["pick"].(int64) < 0 {
 		g.state["pick"] = int64(-1)
 	}
+	g.richInit() // rich.go: extra cells; draws nothing from r
 	g.init = make(map[string]interface{}, len(g.state))
 	for k, v := range g.state {
 		g.init[k] = v // values are immutable snapshots
@@ -474,6 +475,8 @@ func (g *Gen) OpOn(name string) int {
 			a = g.ulist(keyed)
 		}
 		nv = a
+	case isRichCell(name): // rich.go
+		nv = g.richEdit(name, old)
 	default:
 		panic("wsclient: NextOp: unknown cell " + name)
 	}
@@ -601,6 +604,8 @@ type QueryOpts struct {
 	Timed      bool // selects the time-driven field (logical clock, InvalidateAt / InvalidateAfter)
 	SlowAlways bool // always selects the slow (context-honouring) field
 	LQ         bool // selects the live-query field (public reactive.Cache; registers a resource, then may fail)
+	Rich       bool // selects unions whose members hold nullable object- and union-typed fields (rich.go)
+	Snap       bool // selects fields whose resolvers read snapshot-style (value and resource first, registration afterwards), also below an Expensive field (rich.go)
 }
 
 // GenQuery generates a query `{ root(tag: "<tag>") { ... } }` and the cells
@@ -721,6 +726,16 @@ func (g *Gen) GenQuery(tag string, o QueryOpts) (string, []string) {
 			"cu: pu { ... on PA { a } ... on PB { b same __typename } }", "ck: ku { ... on KA { a } ... on KB { id b __typename } }")
 		cells = append(cells, "items", "pick", "mu", "pu", "ku")
 		cells = append(cells, itemCells()...)
+	}
+	if o.Rich {
+		p, c := g.richParts()
+		parts = append(parts, p...)
+		cells = append(cells, c...)
+	}
+	if o.Snap {
+		p, c := g.snapParts()
+		parts = append(parts, p...)
+		cells = append(cells, c...)
 	}
 	if o.Timed {
 		parts = append(parts, "timed")
